@@ -210,6 +210,11 @@ func (fv *FV) resolveType(env *Env, text string) types.Type {
 		el := fv.resolveType(env, text[4:len(text)-1])
 		return &specType{sort: arr(fv.sortOf(el), sInt), elem: el}
 	}
+	if env != nil && env.pc != nil && env.pc != fv.pc && env.pc.Path != "" {
+		if t := fv.resolveForeignType(env, text); t != nil {
+			return t
+		}
+	}
 	pos := env.scopePos
 	pkg := env.scopePkg
 	if pkg == nil {
@@ -1354,6 +1359,30 @@ func (fv *FV) expandEnv(env *Env, sf *SpecFunc, a []Term) *Env {
 		}
 		n.names[p.Name] = at
 	}
+	// a definition from another package names its own type parameters (`*node[T]`): bind them from the arguments,
+	// so that quantifier types inside the body resolve to the instances in use here
+	if sf.Pkg != nil && fv.pc != nil && sf.Pkg != fv.pc {
+		ts := map[string]types.Type{}
+		for k, v := range env.tsubst {
+			ts[k] = v
+		}
+		for i, p := range sf.Params {
+			if i >= len(a) || a[i].T == nil || !strings.Contains(p.Type, "[") {
+				continue
+			}
+			t := a[i].T
+			if pt, ok := t.Underlying().(*types.Pointer); ok {
+				t = pt.Elem()
+			}
+			if nt, ok := types.Unalias(t).(*types.Named); ok && nt.TypeArgs() != nil {
+				tps := nt.Origin().TypeParams()
+				for j := 0; j < tps.Len() && j < nt.TypeArgs().Len(); j++ {
+					ts[tps.At(j).Obj().Name()] = nt.TypeArgs().At(j)
+				}
+			}
+		}
+		n.tsubst = ts
+	}
 	if env.oldNames != nil {
 		n.oldNames = n.names
 	}
@@ -1663,4 +1692,55 @@ func (fv *FV) inTerm(st *State, x, m Term) Term {
 	}
 	fv.sfail("'in' on %s", m.Sort)
 	return Term{}
+}
+
+// resolveForeignType resolves type text written in the contracts of another package (`*node[T]`, `Tree[T]`): the
+// named type is looked up in that package, its type arguments through the current type-parameter bindings.
+func (fv *FV) resolveForeignType(env *Env, text string) types.Type {
+	text = strings.TrimSpace(text)
+	if strings.HasPrefix(text, "*") {
+		if t := fv.resolveForeignType(env, text[1:]); t != nil {
+			return types.NewPointer(t)
+		}
+		return nil
+	}
+	tp := fv.w.allTypes[env.pc.Path]
+	if tp == nil {
+		return nil
+	}
+	name, argText := text, ""
+	if k := strings.Index(text, "["); k > 0 && strings.HasSuffix(text, "]") {
+		name, argText = text[:k], text[k+1:len(text)-1]
+	}
+	tn, ok := tp.Scope().Lookup(name).(*types.TypeName)
+	if !ok {
+		return nil
+	}
+	if argText == "" {
+		return tn.Type()
+	}
+	var targs []types.Type
+	depth, start := 0, 0
+	for i := 0; i <= len(argText); i++ {
+		if i == len(argText) || (argText[i] == ',' && depth == 0) {
+			at := fv.resolveType(env, argText[start:i])
+			if at == nil {
+				return nil
+			}
+			targs = append(targs, at)
+			start = i + 1
+			continue
+		}
+		switch argText[i] {
+		case '[':
+			depth++
+		case ']':
+			depth--
+		}
+	}
+	inst, err := types.Instantiate(nil, tn.Type(), targs, false)
+	if err != nil {
+		return nil
+	}
+	return inst
 }
